@@ -37,7 +37,7 @@ def _case(draw, tier):
     cfg = Cfg(profile="falsy" if "falsy_values" not in avoid else "clean", pool=(2, 6), noise=False)
     recs = draw_dataset(draw, cfg)
     n = len(recs)
-    inner = draw(st.sampled_from(["kids", "kids", "kids", "tags", "a", "s"]))
+    inner = draw(st.sampled_from(["kids", "kids", "kids", "tags", "a", "s", "o", "o"]))
     if inner == "kids" and chance(draw, 1, 3):
         r = recs[draw(st.integers(0, n - 1))]
         if r["kids"]:
@@ -62,7 +62,12 @@ def _case(draw, tier):
             "inner": inner, "form": draw(st.sampled_from(["in_", "contains"])), "negate": draw(st.booleans()),
             "neg_spelling": draw(st.sampled_from(["not_", "~"])), "dom_kind": "list",
             "outer_term": draw(st.sampled_from(["var", "var", "ref"])) if inner == "kids" else
-            ("s" if inner == "s" else draw(st.sampled_from(["a", "b"])))}
+            ("s" if inner == "s" else ("o" if inner == "o" else draw(st.sampled_from(["a", "b"])))),
+            # f = p.<inner> is ONE object: besides being concatenated it is the condition of another query over p
+            # (an(entity(p, f))), built before or after the concatenation and evaluated (to the end / given up after one
+            # result / not at all) before the concatenation is
+            "shared_with_condition_query": draw(st.sampled_from([None, None, None, {"built": "before"}, {"built": "after"}])),
+            "condition_query_run": draw(st.sampled_from(["full", "full", 1, None]))}
 
 
 def strategy(tier):
@@ -119,9 +124,23 @@ def check(case) -> Outcome:
     # ---- the concatenated value itself (the same query object is evaluated twice)
     try:
         V, _ = declare_vars(case, objs)
+        story = case.get("shared_with_condition_query")
         with symbolic_mode():
-            c = concatenate(getattr(V[0], case["inner"]))
+            f_ = getattr(V[0], case["inner"])
+            cq = an(entity(V[0], f_)) if story and story["built"] == "before" else None
+            c = concatenate(f_)
             q = an(entity(c)) if case.get("select_form", "entity") == "entity" else an(set_of([c]))
+            if story and story["built"] == "after":
+                cq = an(entity(V[0], f_))
+        if cq is not None:
+            classes.append("concatenated_expression_is_also_a_condition_of_a_query_built_" + story["built"])
+            run_ = case.get("condition_query_run")
+            if run_ == "full":
+                list(cq.evaluate())
+            elif run_:
+                it_ = cq.evaluate()
+                next(it_, None)
+                it_.close()
     except Exception as e:
         return fail("exception_value", f"building: {type(e).__name__}: {e}", nontrivial=nontrivial, classes=classes,
                     features=feats)
